@@ -1402,12 +1402,35 @@ def _r11(ctx, pkg, regs, protos, consts, universal):
         if isinstance(e, ast.UnaryOp) and isinstance(e.op, ast.USub):
             v = const_of(e.operand, depth)
             return -v if v is not _tri and isinstance(v, (int, float)) and not isinstance(v, bool) else _tri
-        if depth < 4 and isinstance(e, ast.Name) and e.id in mconst:
+        if depth < 4 and isinstance(e, ast.Name) and e.id in lconst:
+            return const_of(lconst[e.id], depth + 1)
+        if depth < 4 and isinstance(e, ast.Name) and e.id in mconst and e.id not in lstores:
             return const_of(mconst[e.id], depth + 1)
         if depth < 4 and isinstance(e, ast.Attribute) and isinstance(e.value, ast.Name) and e.value.id in ("self", "cls", "ThermalProcess") and e.attr in tp.attrs \
                 and e.attr not in stores:
             return const_of(tp.attrs[e.attr], depth + 1)
         return _tri
+    # the constructor as rules read it: the private helpers it was split into put back, and a local bound once at its top level
+    # (`unlimited = -1.0; self.temp_min = unlimited`) standing for its value
+    initx, lconst, lstores = init, {}, {}
+    if init is not None:
+        try:
+            initx = pkg.expanded("ThermalProcess", "__init__")
+        except Exception:
+            initx = init
+        for nd in ast.walk(initx):
+            if isinstance(nd, ast.Name) and isinstance(nd.ctx, (ast.Store, ast.Del)):
+                lstores[nd.id] = lstores.get(nd.id, 0) + 1
+        for a_ in ast.walk(initx.args):
+            if isinstance(a_, ast.arg):
+                lstores[a_.arg] = lstores.get(a_.arg, 0) + 1
+        lconst = {st.targets[0].id: st.value for st in initx.body if isinstance(st, ast.Assign) and len(st.targets) == 1 and isinstance(st.targets[0], ast.Name)
+                  and lstores.get(st.targets[0].id) == 1}
+
+    def deref(v, depth=0):
+        while depth < 4 and isinstance(v, ast.Name) and v.id in lconst:
+            v, depth = lconst[v.id], depth + 1
+        return v
     if init is not None:
         ctx.saw(TPROC, "ThermalProcess.__init__")
         for m in tp.methods.values():
@@ -1415,7 +1438,7 @@ def _r11(ctx, pkg, regs, protos, consts, universal):
                 if isinstance(n, ast.Attribute) and isinstance(n.ctx, ast.Store) and isinstance(n.value, ast.Name) and n.value.id == "self":
                     stores[n.attr] = stores.get(n.attr, 0) + 1
         params = [a.arg for a in init.args.args[1:]] + [a.arg for a in init.args.kwonlyargs]
-        for st in init.body:
+        for st in initx.body:
             # `self.a = v`, `self.a = self.b = v`, `self.a, self.b = v, w`
             pairs = []
             if isinstance(st, ast.Assign):
@@ -1431,8 +1454,8 @@ def _r11(ctx, pkg, regs, protos, consts, universal):
                     c_ = const_of(v)
                     if c_ is not _tri:
                         fixed[t.attr] = c_
-                    elif isinstance(v, ast.Name) and v.id in params:
-                        fed[t.attr] = v.id
+                    elif isinstance(deref(v), ast.Name) and deref(v).id in params and lstores.get(deref(v).id) == 1:
+                        fed[t.attr] = deref(v).id
     # ... or that the class body fixes (`temp_min = -1.0`) and no method stores
     for a_, node_ in tp.attrs.items():
         if a_ not in fixed and a_ not in fed and not (init is not None and a_ in stores) and const_of(node_) is not _tri:
